@@ -25,6 +25,36 @@ class Finding(dict):
     pass
 
 
+class CaseTimeout(Exception):
+    """a single case ran far beyond what its workload intends (e.g. an exponential path enumeration inside the
+    library): the case is abandoned and counted as skipped - never a verdict"""
+
+
+class case_deadline(object):
+    """with case_deadline(ctx, seconds): ...   (wall-clock alarm around ONE case; main thread only)"""
+
+    def __init__(self, ctx, seconds):
+        self.ctx, self.seconds = ctx, seconds
+
+    def _fire(self, signum, frame):
+        raise CaseTimeout()
+
+    def __enter__(self):
+        import signal
+        self._old = signal.signal(signal.SIGALRM, self._fire)
+        signal.setitimer(signal.ITIMER_REAL, self.seconds)
+        return self
+
+    def __exit__(self, et, ev, tb):
+        import signal
+        signal.setitimer(signal.ITIMER_REAL, 0)
+        signal.signal(signal.SIGALRM, self._old)
+        if et is CaseTimeout:
+            self.ctx.skip("case abandoned after %ds (library call did not return)" % self.seconds)
+            return True
+        return False
+
+
 class Ctx(object):
     """One per worker.  All generators draw from ctx.rng (seeded from VERIF_SEED, shard)."""
 
